@@ -69,11 +69,13 @@ static void observe(int kind, std::size_t t, int w, unsigned long long seed, std
         else
         {
             auto f = [](hep::multi_channel_point<T> const& p) { return note(p.point()[0]); };
-            auto map = [](std::size_t, std::vector<T> const& r, std::vector<T>& c, std::vector<std::size_t> const&,
-                std::vector<T>& d, hep::multi_channel_map) { c[0] = r[0]; d[0] = T(1); d[1] = T(1); return T(1); };
+            // two channels, or (for odd totals) exactly one; as many coordinates as numbers, or (every third total) two more
+            std::size_t const channels = t % 2 ? 1 : 2, coords = t % 3 == 0 ? 3 : 1;
+            auto map = [channels](std::size_t, std::vector<T> const& r, std::vector<T>& c, std::vector<std::size_t> const&,
+                std::vector<T>& d, hep::multi_channel_map) { for (T& x : c) x = r[0]; for (std::size_t j = 0; j != channels; ++j) d[j] = T(1); return T(1); };
             auto chk = hep::make_multi_channel_chkpt<T, eng>(T(), T(0.25), eng());
             using C = decltype(chk);
-            auto r = hep::mpi_multi_channel(comm, hep::make_multi_channel_integrand<T>(f, 1, map, 1, 2), calls, chk,
+            auto r = hep::mpi_multi_channel(comm, hep::make_multi_channel_integrand<T>(f, 1, map, coords, channels), calls, chk,
                 hep::mpi_callback<C>(hep::callback_mode::silent));
             end[(std::size_t) rank] = (long long) r.generator().pos();
         }
